@@ -993,6 +993,16 @@ def selftest(tier, seed):
             return recs
         return m
 
+    def shift(field, by, pred):
+        def m(recs):
+            i = first(recs, pred)
+            if i is None:
+                return None
+            recs = [dict(r) for r in recs]
+            recs[i][field] = recs[i][field] + by
+            return recs
+        return m
+
     def drop(pred):
         def m(recs):
             i = first(recs, pred)
@@ -1014,6 +1024,14 @@ def selftest(tier, seed):
          lambda recs: (lambda idx: None if len(idx) < 3 else recs[:idx[-1]] + recs[idx[-1] + 1:])([i for i, r in enumerate(recs) if r.get("ev") == "pret" and r.get("res") == "some"])),
         ("contract ln line+1", "Trace_Contract", base + "_p.ndjson", bump("line", lambda r: r.get("ev") == "ln")),
         ("dimacs col+1", "Trace_Dimacs", base + "_p.ndjson", bump("coln", lambda r, cur: r.get("ev") == "pret" and r.get("kind") == "syntax" and cur.get("parser") == "cnf")),
+        ("aigerref error position off the token", "Trace_AigerRef", base + "_p.ndjson",
+         shift("pos", 40, lambda r, cur: r.get("ev") == "gu" and not r.get("io") and cur.get("parser") == "aag" and not cur.get("faulty"))),
+        ("aigerref drop item", "Trace_AigerRef", base + "_p.ndjson",
+         drop(lambda r, cur: r.get("ev") == "pret" and r.get("res") == "some" and cur.get("parser") == "aag" and not cur.get("faulty"))),
+        ("btor2ref error position off the token", "Trace_Btor2Ref", base + "_p.ndjson",
+         shift("pos", 40, lambda r, cur: r.get("ev") == "gu" and not r.get("io") and cur.get("parser") == "btor2" and not cur.get("faulty"))),
+        ("btor2ref drop item", "Trace_Btor2Ref", base + "_p.ndjson",
+         drop(lambda r, cur: r.get("ev") == "pret" and r.get("res") == "some" and cur.get("parser") == "btor2" and not cur.get("faulty"))),
     ]
     for name, spec, path, mut in cases:
         r = _corrupt_and_validate(name.replace(" ", "_").replace("+", "p"), spec, path, mut)
